@@ -12,6 +12,7 @@ package sched
 
 import (
 	"fmt"
+	"os"
 	"runtime"
 	"strconv"
 	"strings"
@@ -74,6 +75,14 @@ func (s *Sched) name(p any) string {
 }
 
 var active atomic.Pointer[Sched]
+
+// HangTimeout is how long the scheduler waits for the running thread to reach
+// its next point before it declares the execution hung (a harness problem:
+// the thread blocks on something the scheduler does not own).
+var HangTimeout = 30 * time.Second
+
+// DumpOnHang prints all goroutine stacks when an execution hangs.
+var DumpOnHang = false
 
 // Active reports whether the calling goroutine is a controlled thread of an
 // execution in progress.
@@ -242,9 +251,14 @@ func Run(prefix []int, bodies []func()) *Result {
 		t.wake <- true
 		select {
 		case <-s.yield:
-		case <-time.After(120 * time.Second):
+		case <-time.After(HangTimeout):
 			// A controlled thread blocks on something the scheduler does not see.
 			res.Hung = true
+			if DumpOnHang {
+				buf := make([]byte, 1<<20)
+				n := runtime.Stack(buf, true)
+				fmt.Fprintf(os.Stderr, "sched: thread t%d (%s) did not come back; goroutines:\n%s\n", t.id, t.label, buf[:n])
+			}
 			res.Foreign = s.foreign.Load()
 			return res
 		}
